@@ -24,6 +24,14 @@ def run(env, tier, seed, broken=None):
         if i % 3 == 0:
             src += '%s q = {%s};\n' % (VAR, ', '.join('%s: p(1 / %d)' % (k, 0 if j in (2, 5) else 1) for j, k in enumerate(ks)))
         cases.append({'id': 'o%d' % n, 'src': src, 'repeat': reps}); n += 1
+    ya1, ya2 = 'আয়', 'আয়'      # the same letters spelt with U+09DF and with U+09AF U+09BC: distinct keys, equal under NFC
+    for i in range(6 if tier == 'quick' else 40):
+        src = '%s o = {%s: 1, %s: 2, k: 3};\n' % (VAR, ya1, ya2) + ''.join('%s %s(o);\n%s %s(o);\n' % (PRINT, VALUES, PRINT, KEYS) for _ in range(6)) + '%s o;\n' % PRINT
+        cases.append({'id': 'k%d' % n, 'src': src, 'repeat': reps * 2}); n += 1
+        src = '%s mk(o) { %s o; }\n%s "s";\n%s mk({nam: "b", ver: 1, lang: "bn", yr: 2024, e: 5, f: 6, g: 7, h: 8}).author;\n' % (FUN, RETURN, PRINT, PRINT)
+        cases.append({'id': 'k%d' % n, 'src': src, 'repeat': reps * 2}); n += 1
+        src = '%s {a: 1, b: 2, c: 3, d: 4, e: 5, f: 6, g: 7, h: 8}.zz;\n%s x = {a: 1, b: 2, c: 3, d: 4}.a.b;\n' % (PRINT, VAR)
+        cases.append({'id': 'k%d' % n, 'src': src, 'repeat': reps * 2}); n += 1
     for i in range(400 if tier == 'quick' else 6000):
         r = sub_rng(seed, 'C13r%d' % i)
         cases.append({'id': 'r%d' % n, 'src': progs.random_program(r, r.randint(6, 20), 3, fault_rate=0.1), 'repeat': reps}); n += 1
@@ -36,7 +44,8 @@ def run(env, tier, seed, broken=None):
     nontriv = set()
     for c in cases:
         rs = ri[c['id']]
-        sig = set((r['status'], r['stdout'], tuple(core.parse_stderr(r['stderr'].decode('utf-8', 'replace'))[:1])) for r in rs)
+        # "the same first diagnostic": its full text (message and line), byte for byte
+        sig = set((r['status'], r['stdout'], b'\n'.join(r['stderr'].split(b'\n')[:2])) for r in rs)
         nontriv.add(rs[0]['stdout'])
         if len(sig) != 1:
             a = list(sig)[:2]
